@@ -5,6 +5,8 @@
 //   rsolve  <decls> ; <post> ; ... ; <entry>      -> solutions projected on every handle the program holds
 //                                                   (declared variables and returned result variables, in creation order)
 // decls ::= decl|decl|...      decl ::= lo..hi (m.int) | b (m.bool) | a,b,c (m.intset)
+//                                      | ints(n,lo,hi) | ints2d(r,c,lo,hi) | ints3d(d,r,c,lo,hi) | bools(n) | bools2d(r,c) | bools3d(d,r,c)
+//                                        (array factories: every handle is handed to the program, row-major)
 // post  ::= new <cons> | lin (eq|le|ne) cs xs k | blin (eq|le|ne) cs xs k | api (add|sub|mul) xI xJ   (as mlevel.rs)
 //         | call <route> <args>
 // route ::= add A B | sub A B | mul A B | mod A B | abs A          A ::= xN | c:K     (each returns a handle)
@@ -17,12 +19,15 @@
 //         | lineqr|linler|linner|blineqr|blinler|blinner cs XS k xR
 //         | fand xA xB | for xA xB | fnot xA | fxor xA xB | felement XS xI | bool2int xB   (free functions, return a handle)
 //         | fimplies xA xB | cumulative XS d,d,.. e,e,.. CAP
+//         | amin XS | amax XS (array_int_minimum / array_int_maximum) | sumiter A,A,.. (sum_iter; all handles or all constants)
+//         | element2d MAT xR xC xV | element3d CUBE xD xR xC xV | table2d MAT a:b/c:d | table3d CUBE a:b/c:d
+//           MAT ::= - (no rows) | ROW/ROW/..    ROW ::= e (empty) | xI,xJ,..    CUBE ::= - (no layers) | LAYER//LAYER//..   LAYER ::= E (no rows) | MAT
 // entry ::= enum | first | min xN | max xN
 // Variables in posts are USER ORDINALS: the i-th handle the program obtained.
 use selen::prelude::*;
 use selen::variables::{Val, Var, VarId, Vars};
 use selen::constraints::props::Propagators;
-use crate::mlevel::{fmt_dom, parse_cons};
+use crate::mlevel::{fmt_dom, parse_cons_opt};
 
 fn vix(tok: &str) -> usize { tok.trim_start_matches('x').parse().expect("var") }
 fn vlist(tok: &str, vars: &[VarId]) -> Vec<VarId> {
@@ -34,6 +39,31 @@ fn parse_tuples(tok: &str) -> Vec<Vec<Val>> {
     tok.split('/')
         .map(|tp| if tp == "e" { vec![] } else { tp.split(':').map(|v| Val::ValI(v.parse().expect("tuple value"))).collect() })
         .collect()
+}
+fn parse_mat(tok: &str, vars: &[VarId]) -> Vec<Vec<VarId>> {
+    if tok == "-" || tok == "E" { return vec![]; }
+    tok.split('/').map(|r| if r == "e" { vec![] } else { vlist(r, vars) }).collect()
+}
+fn parse_cube(tok: &str, vars: &[VarId]) -> Vec<Vec<Vec<VarId>>> {
+    if tok == "-" { return vec![]; }
+    tok.split("//").map(|l| parse_mat(l, vars)).collect()
+}
+/// array-factory declarations: the handles in row-major order
+fn factory_decl(m: &mut Model, d: &str) -> Option<Vec<VarId>> {
+    let open = d.find('(')?;
+    if !d.ends_with(')') { return None; }
+    let a: Vec<i64> = d[open + 1..d.len() - 1].split(',').map(|x| x.trim().parse().expect("factory argument")).collect();
+    let u = |i: usize| a[i] as usize;
+    let i = |i: usize| a[i] as i32;
+    Some(match &d[..open] {
+        "ints" => m.ints(u(0), i(1), i(2)),
+        "bools" => m.bools(u(0)),
+        "ints2d" => m.ints_2d(u(0), u(1), i(2), i(3)).into_iter().flatten().collect(),
+        "bools2d" => m.bools_2d(u(0), u(1)).into_iter().flatten().collect(),
+        "ints3d" => m.ints_3d(u(0), u(1), u(2), i(3), i(4)).into_iter().flatten().flatten().collect(),
+        "bools3d" => m.bools_3d(u(0), u(1), u(2)).into_iter().flatten().flatten().collect(),
+        k => panic!("bad factory {}", k),
+    })
 }
 enum Opnd { V(VarId), C(i32) }
 fn opnd(tok: &str, vars: &[VarId]) -> Opnd {
@@ -65,6 +95,7 @@ pub fn build(line: &str) -> Built {
     let mut m = Model::default();
     let mut vars: Vec<VarId> = vec![];
     for d in parts.next().unwrap().split('|').map(|d| d.trim()).filter(|d| !d.is_empty()) {
+        if let Some(hs) = factory_decl(&mut m, d) { vars.extend(hs); continue; }
         let v = if d == "b" { m.bool() }
         else if let Some(p) = d.find("..") { m.int(d[..p].parse().unwrap(), d[p + 2..].parse().unwrap()) }
         else { m.intset(crate::parse_list(d)) };
@@ -76,7 +107,7 @@ pub fn build(line: &str) -> Built {
         if p.is_empty() || callerr.is_some() { continue; }
         let t: Vec<&str> = p.split_whitespace().collect();
         match t[0] {
-            "new" => { let c = parse_cons(t[1], &vars); m.new(c); }
+            "new" => { if let Some(c) = parse_cons_opt(t[1], &vars) { m.new(c); } }
             "lin" | "blin" => {
                 let cs = crate::parse_list(t[2]);
                 let xs = vlist(t[3], &vars);
@@ -154,6 +185,20 @@ fn call(m: &mut Model, vars: &mut Vec<VarId>, t: &[&str]) -> Result<(), String> 
         "felement" => ret = Some(element(m, &vlist(t[1], vars), v(2))),
         "bool2int" => ret = Some(bool2int(m, v(1))),
         "cumulative" => cumulative(m, &vlist(t[1], vars), &ints(2), &ints(3), int(4)),
+        "amin" => match m.array_int_minimum(&vlist(t[1], vars)) { Ok(r) => ret = Some(r), Err(e) => return Err(err_name(&e)) },
+        "amax" => match m.array_int_maximum(&vlist(t[1], vars)) { Ok(r) => ret = Some(r), Err(e) => return Err(err_name(&e)) },
+        "sumiter" => {
+            let ops: Vec<Opnd> = if t[1] == "-" { vec![] } else { t[1].split(',').map(|x| opnd(x, vars)).collect() };
+            if ops.iter().all(|o| matches!(o, Opnd::V(_))) {
+                ret = Some(m.sum_iter(ops.iter().map(|o| match o { Opnd::V(x) => *x, Opnd::C(_) => unreachable!() })));
+            } else if ops.iter().all(|o| matches!(o, Opnd::C(_))) {
+                ret = Some(m.sum_iter(ops.iter().map(|o| match o { Opnd::C(c) => Val::ValI(*c), Opnd::V(_) => unreachable!() })));
+            } else { panic!("sumiter: one item type per call (all handles or all constants)"); }
+        }
+        "element2d" => { m.element_2d(&parse_mat(t[1], vars), v(2), v(3), v(4)); }
+        "element3d" => { m.element_3d(&parse_cube(t[1], vars), v(2), v(3), v(4), v(5)); }
+        "table2d" => { m.table_2d(&parse_mat(t[1], vars), parse_tuples(t[2])); }
+        "table3d" => { m.table_3d(&parse_cube(t[1], vars), parse_tuples(t[2])); }
         k => panic!("bad route {}", k),
     }
     if let Some(r) = ret { vars.push(r); }
